@@ -8,6 +8,7 @@ import (
 	"runtime/debug"
 	"sort"
 	"strings"
+	"time"
 )
 
 // Rng is splitmix64; every random choice of a run derives from one seed.
@@ -52,6 +53,33 @@ type Family struct {
 	Rule string // how cases are generated and what makes one non-trivial (goes into the evidence)
 	Gen  func(r *Rng, tier string, emit func(c Sx))
 	Run  func(c Sx) Result
+	// CaseTimeout bounds one Run call (default 120 s): a looping implementation is
+	// reported as an oracle failure ("case timed out") instead of stalling the run.
+	CaseTimeout time.Duration
+}
+
+// runOneTimed runs one case under the family's per-case timeout (the goroutine of a
+// timed-out case is abandoned).
+func runOneTimed(f Family, c Sx) (Result, bool) {
+	d := f.CaseTimeout
+	if d == 0 {
+		d = 120 * time.Second
+	}
+	type out struct {
+		r     Result
+		shape bool
+	}
+	ch := make(chan out, 1)
+	go func() {
+		r, s := runOne(f, c)
+		ch <- out{r, s}
+	}()
+	select {
+	case o := <-ch:
+		return o.r, o.shape
+	case <-time.After(d):
+		return Result{Obs: nil, Oracle: fmt.Sprintf("case timed out after %v (implementation does not terminate?)", d)}, false
+	}
 }
 
 type shapeError struct{ msg string }
@@ -148,7 +176,7 @@ func Main(f Family) {
 				fmt.Fprintf(out, "!parse\tharness parse error: %v\t\t0\n", err)
 				continue
 			}
-			r, _ := runOne(f, c)
+			r, _ := runOneTimed(f, c)
 			nt := "0"
 			if r.NonTrivial {
 				nt = "1"
@@ -170,7 +198,7 @@ func Main(f Family) {
 				continue
 			}
 			fails := func(x Sx) bool {
-				r, shape := runOne(f, x)
+				r, shape := runOneTimed(f, x)
 				return !shape && r.Oracle != ""
 			}
 			if fails(c) {
